@@ -21,16 +21,16 @@ def tasks(tier, seed):
         ts.append({"id": f"step:VOGP[{cone},N={N}]", "fn": "induct_task",
                    "args": {"cls_name": "VOGP", "ctype": None, "cone": cone, "W": W.tolist(), "N": N, "prop": "C05", "tier": tier},
                    "weight": 100})
-        ts.append({"id": f"base:VOGP[{cone},N=2]", "fn": "induct_task",
+        ts.append({"id": f"hist:VOGP[{cone},N=2,rounds=2]", "fn": "induct_task",
                    "args": {"cls_name": "VOGP", "ctype": None, "cone": cone, "W": W.tolist(), "N": 2, "prop": "C05",
-                            "tier": tier, "base_only": True}, "weight": 5})
+                            "tier": tier, "base_only": True, "rounds": 2}, "weight": 50})
         if cone.startswith("orthant"):
             ts.append({"id": f"step:EpsilonPAL[{cone},N={N}]", "fn": "induct_task",
                        "args": {"cls_name": "EpsilonPAL", "ctype": None, "cone": cone, "W": W.tolist(), "N": N, "prop": "C05",
                                 "tier": tier}, "weight": 100})
-            ts.append({"id": f"base:EpsilonPAL[{cone},N=2]", "fn": "induct_task",
+            ts.append({"id": f"hist:EpsilonPAL[{cone},N=2,rounds=2]", "fn": "induct_task",
                        "args": {"cls_name": "EpsilonPAL", "ctype": None, "cone": cone, "W": W.tolist(), "N": 2, "prop": "C05",
-                                "tier": tier, "base_only": True}, "weight": 5})
+                                "tier": tier, "base_only": True, "rounds": 2}, "weight": 50})
     return ts
 
 
